@@ -8,6 +8,7 @@ import GcpVerif.Driver.Common
 import GcpVerif.Driver.ME
 import GcpVerif.Driver.Pool
 import GcpVerif.Driver.Checksum
+import GcpVerif.Driver.KeyPath
 open GcpVerif.Driver
 
 structure DrvState where
@@ -25,6 +26,8 @@ def handleLine (st : DrvState) (ln : Nat) (line : String) : DrvState :=
   | "pool" :: toks =>
     let (sess, rep) := PoolDrv.handle st.pool { st.rep with lines := st.rep.lines + 1 } ln toks obs
     { st with pool := sess, rep := rep }
+  | "kp" :: toks =>
+    { st with rep := KpDrv.handle { st.rep with lines := st.rep.lines + 1 } ln toks obs }
   | "ck" :: toks =>
     { st with rep := CkDrv.handle { st.rep with lines := st.rep.lines + 1 } ln toks obs }
   | _ => { st with rep := st.rep.msg s!"BAD line={ln} unknown model" }
